@@ -135,7 +135,11 @@ func main() {
 				}
 				re2, log2 := tgen.ExpectHoisted(it.p.Body, rt.Valuations[r.V])
 				if ok && re2.MatchString(can) && strings.Join(r.Log, ",") == strings.Join(log2, ",") {
-					run.Violation("class-expression-in-conditional-attribute-evaluated-unconditionally", fmt.Sprintf("%s (valuation %d): expressions evaluated %v, control flow reaches %v", it.p.Desc, r.V, r.Log, wantLog), replay)
+					key := "class-expression-in-conditional-attribute-evaluated-unconditionally"
+					if tgen.HasCondScript(it.p.Body) {
+						key = "script-handler-in-conditional-attribute-evaluated-unconditionally"
+					}
+					run.Violation(key, fmt.Sprintf("%s (valuation %d): expressions evaluated %v, control flow reaches %v", it.p.Desc, r.V, r.Log, wantLog), replay)
 					continue
 				}
 			}
